@@ -10,8 +10,8 @@ RULE = ("The Ref machine has no construction-route component: Step depends on th
         "bools, bitarray (positional and keyword), bytes with length, bytes with offset, slice of a larger object, another "
         "object, uint, fromstring, file by name (whole file), file with length shorter than the file, file with unaligned offset "
         "and length, file handle - and the same 3-6 non-mutating calls (slices, indices, ==, hash, count, all/any, +, *, ~, & | ^, "
-        "find/rfind/startswith/endswith, tobytes, join, copy) plus use as an operand (append into another object, constructor "
-        "argument) and, on mutable classes, a mutation are run on each twin, under msb0 and lsb0. TLC judges every event.")
+        "find/rfind/startswith/endswith, tobytes, join, copy) - and, for mutable twins, tofile / tobytes after the mutation - plus use as an operand (append into another object, constructor "
+        "argument) and, on mutable classes, a mutation are run on each twin, under msb0 and lsb0. The string-cache route is exercised with history: the literal is first used as an operand of prepend / append / += / insert / overwrite on empty and non-empty mutable objects and as a fromstring / constructor argument of objects that are then changed in place, before the twin is built from the same string. TLC judges every event.")
 
 
 def run(chk):
@@ -22,5 +22,6 @@ def run(chk):
     chk.queue([serialprogs.route_program(rng, huge=0.05 if thorough else 0.01) for _ in range(1500 * k)], 'random-routes')
     chk.queue([serialprogs.route_program(rng, lsb0=True) for _ in range(700 * k)], 'random-routes-lsb0')
     chk.queue([serialprogs.window_program(rng) for _ in range(600 * k)], 'random-windows')
+    chk.queue([serialprogs.cache_route_program(rng, lsb0=(i % 4 == 3)) for i in range(800 * k)], 'string-cache-route')
     chk.flush()
     return chk.finish(rule=RULE, assumptions=ASSUME)
